@@ -42,7 +42,13 @@ class BinPackH(Harness):
     RESET_INV = False
     MULTI_DISCRETE = True
     REWARD_VARIANTS = [{}, {"reward_fn": _sparse()}]
-    OBS_VARIANTS = [{}, {"normalize_dimensions": False}, {"obs_num_ems": 5}]
+    OBS_VARIANTS = [{}, {"normalize_dimensions": False}, {"obs_num_ems": "all"}]   # "all": obs_num_ems == max_num_ems
+
+    def __init__(self, cfg, **over):
+        if over.get("obs_num_ems") == "all":
+            from envs import configs
+            over = dict(over, obs_num_ems=configs.make(cfg).generator.max_num_ems)
+        super().__init__(cfg, **over)
 
     def dims(self):
         g = self.env.generator
